@@ -1311,7 +1311,7 @@ class C14(Prop):
         "proved for the lexer model of C10 (coq/model/Lexer.v, tied to preprocess/src/lexer.rs by C10's correspondence run and regenerated tables), partial: a blank (space, tab, line feed) directly after an identifier, keyword, reserved word, operator symbol or string literal leaves that token and, from there on, the sequence of non-whitespace tokens unchanged (C14_*_partial); numeric literals in front of the blank, comments / line splices as the inserted trivia, and the layers after the lexer are not covered by a theorem",
         "proved: the location arithmetic of SourceManager (line/column decoding, per-file ranges); the model is compared with SourceManager on every offset of small multi-file sets",
         "observed on the implementation only (metamorphic): a program and the same program with trivia inserted at token boundaries (never directly after < or >, never between a #define name and its parenthesis, inline trivia only inside directive lines, #include/#pragma lines untouched) give byte-identical output and metadata on HLSL and MSL, or the same messages; k lines in front of every file move every reported line by k with file, column, message, source excerpt and caret line unchanged",
-        "token boundaries are found by a coarse tokenizer of the harness whose pieces are unions of real tokens, so every insertion point is a real token boundary (not every real boundary is tried)",
+        "token boundaries are found by a coarse tokenizer of the harness whose pieces are unions of real tokens (identifiers, numbers with fraction / exponent / suffix, the period of a member access or swizzle, strings, runs of operator characters, single other characters), so every insertion point is a real token boundary (not every real boundary is tried); when a varied program differs, each insertion is tried alone and the first that is enough is reported with the text around it",
     ]
 
     def kind(self, case):
@@ -1331,6 +1331,18 @@ class C14(Prop):
             if w[0] == "W":
                 return "inserting trivia at token boundaries of program %s (seed %s) changed the result: %s" % (w[1], w[2], impl[5:300])
             return "inserting %s %s lines before program %s did not shift the diagnostic by exactly that many lines: %s" % (w[2], w[3], w[1], impl[5:300])
+        return None
+
+    def known_class(self, case, impl, model):
+        # `1.xx` is lexed as `1` `.` `xx` (a look-ahead of the float rule, preprocess/src/lexer.rs literal_float); with
+        # anything between the period and the x the float rule takes `1.` and the program is rejected
+        if case.startswith("W ") and impl.startswith("DIFF verdict OK -> ERR") and "failed to parse source" in impl \
+                and re.search(r"single insertion in [^:]+: \[[^\]]*[0-9]\.\]\+\[.*\]\+\[x", impl):
+            return "trivia-after-the-period-of-an-integer-swizzle"
+        # a token made by ## lives in a file of its own named <scratch space>: its diagnostics stay at line 1
+        m = re.match(r"DIFF position <scratch space>:1:(\d+) -> <scratch space>:1:(\d+) ", impl)
+        if case.startswith("K ") and m and m.group(1) == m.group(2):
+            return "diagnostic-for-a-pasted-token-stays-in-the-scratch-file"
         return None
 
     def nontrivial(self, case, impl):
